@@ -102,6 +102,15 @@ CLAIMED = {
          "(the closure is verified); the mode flag is not changed by feeding. That the decoder IS conforming streaming UTF-8 with maximal-subpart replacement is encoding_rs's contract and is ASSUMED.",
     design="5 C11", technique="Verus contract on the verbatim ByteParser::feed over an abstract streaming-decoder state",
     note="ASSUMED: encoding_rs (external crate, SIMD/unsafe) implements WHATWG streaming UTF-8 decoding; select_other_charset (string-literal match) is not under contract."),
+ 'C01': dict(
+    text="Every function under contract carries, for ALL states satisfying the representation invariant and all arguments absent or <= 65535, the implicit obligations that no "
+         "u32/i32/usize operation overflows, no unwrap/expect/panic!/index is reachable, and every callee's precondition holds; each also re-establishes the invariant, so the next call's "
+         "precondition holds (induction over call histories). Covered this way: every ParserListener method of Screen except select_graphic_rendition and define_charset (incl. draw, display, "
+         "resize with any size 1..65535), Parser::feed and ByteParser::feed (nothing but the assumed coroutine/listener/decoder steps can fail), and by Kani the three dispatchers for every "
+         "final byte and parameter list. Loops: all are `for` loops over finite ranges/iterators; Verus proves termination for each (decreases), incl. the set_mode/resize/restore_cursor recursion. "
+         "NOT covered (stated gap): the recogniser closure in Parser::new (generator coroutine), select_graphic_rendition, define_charset, Parser::new/ByteParser::new, encoding_rs/generator-rs internals.",
+    design="5 C01", technique="Verus implicit safety obligations + wf pre/postconditions on the verbatim functions; Kani for the dispatchers",
+    note="As the general note. A panic introduced inside the recogniser closure, SGR or define_charset is NOT detectable by this check."),
 }
 NA = {}
 checks = []
